@@ -212,6 +212,7 @@ func (x *Exec) writeComps(st *State, key string, t types.Type, ref string, v Val
 // bumpWrite advances the heap version seen by heap-reading pure functions.  A write into an object that this activation allocated
 // and whose reference was never stored anywhere is invisible to functions that are not handed the object (counter hvF)
 func (st *State) bumpWrite(target string, vals []string) {
+	st.markEscaping(vals)
 	if !isFreshRef(target) {
 		// a fresh reference stored into memory that existed before (or whose freshness is not syntactically known) escapes;
 		// stored into another fresh object it stays unreachable until that object escapes
@@ -638,6 +639,7 @@ func (x *Exec) allocRef(st *State) string {
 	x.decls.Axiom(r, sLt(st.alloc, r))
 	x.decls.Axiom(r, sLt("0", r))
 	st.alloc = r
+	st.freshList = append(st.freshList, r)
 	return r
 }
 
